@@ -354,4 +354,16 @@ theorem nf_near {res e : ℝ → ℝ} {J P B off x : ℝ} (hres : ∀ k, res k =
   rw [abs_le]
   constructor <;> nlinarith [a.1, a.2, b.1, b.2]
 
+/-! ### shapes of generated term lists (decidable facts about the regenerated data) -/
+
+/-- everything of a term but its leading amplitude: E-multiplicity, sin/cos, argument, `t`-slope -/
+def termShape (tm : Term) : Nat × Fn × AExp × Option Dec := (tm.epow, tm.fn, tm.arg, tm.c1)
+
+/-- `|a - b| ≤ 10^(-k)` for two decimal literals, in integer arithmetic -/
+def decClose (k : Nat) (a b : Dec) : Bool :=
+  decide ((a.m * 10 ^ b.e - b.m * 10 ^ a.e).natAbs * 10 ^ k ≤ 10 ^ (a.e + b.e))
+
+/-- `|a| = |b|` for two decimal literals -/
+def decAbsEq (a b : Dec) : Bool := decide (a.m.natAbs * 10 ^ b.e = b.m.natAbs * 10 ^ a.e)
+
 end Pymeeus.GenR.MoonM
